@@ -1,7 +1,7 @@
 //! Native search for a concrete string on which the text helpers of the tree under test violate
 //! C17 (Unquote::to_cow vs the character-by-character iterator, no panic), C19 (set_path /
 //! get_path) or C06 (text option values, list accessors).  Replay aid only: never decides a verdict.
-use coap_lite::link_format::Unquote;
+use coap_lite::link_format::{LinkFormatParser, Unquote};
 use coap_lite::option_value::{OptionValueString, OptionValueU16};
 use coap_lite::{CoapOption, CoapRequest, Packet};
 use std::collections::LinkedList;
@@ -37,6 +37,43 @@ fn strings(alphabet: &[&str], max: usize) -> Vec<String> {
     all
 }
 
+/// byte range of `sub` inside `whole` if it is a sub-slice of it (by address)
+fn range_in(whole: &str, sub: &str) -> Option<(usize, usize)> {
+    let (w, s) = (whole.as_ptr() as usize, sub.as_ptr() as usize);
+    if sub.is_empty() { return Some((0, 0)); }
+    if s >= w && s + sub.len() <= w + whole.len() { Some((s - w, s - w + sub.len())) } else { None }
+}
+
+fn scan_links(doc: &str) -> Result<(), String> {
+    let mut pos = 0usize; // everything yielded so far ends at or before the start of what follows
+    let mut errored = false;
+    let mut count = 0;
+    for item in LinkFormatParser::new(doc) {
+        count += 1;
+        if count > doc.len() + 2 { return Err("link iterator does not terminate".into()); }
+        if errored { return Err("item after an error".into()); }
+        match item {
+            Err(_) => errored = true,
+            Ok((link, attrs)) => {
+                let (a, b) = range_in(doc, link).ok_or("link is not a substring of the input")?;
+                if !link.is_empty() { if a < pos { return Err(format!("link {:?} out of order", link)); } pos = b; }
+                let mut n = 0;
+                for (key, value) in attrs {
+                    n += 1;
+                    if n > doc.len() + 2 { return Err("attribute iterator does not terminate".into()); }
+                    let _ = (value.to_cow(), value.to_string());
+                    let raw = value.into_raw_str();
+                    for part in [key, raw] {
+                        let (a, b) = range_in(doc, part).ok_or("attribute part is not a substring of the input")?;
+                        if !part.is_empty() { if a < pos { return Err(format!("attribute part {:?} out of order", part)); } pos = b; }
+                    }
+                }
+            }
+        }
+    }
+    Ok(())
+}
+
 fn ref_path_segments(p: &str) -> Vec<String> {
     let mut v: Vec<String> = p.split('/').map(|s| s.to_string()).collect();
     if v[0].is_empty() { v.remove(0); }
@@ -55,6 +92,15 @@ fn main() {
                     if cow != it { found("to_cow-differs-from-iterator", format!("{:?}: to_cow {:?} iterator {:?}", s, cow, it)); }
                     if it != ref_unquote(&s) { found("iterator-differs-from-reference", format!("{:?}: iterator {:?}", s, it)); }
                 }
+            }
+        }
+    }
+    if which == "all" || which == "C17" {
+        for s in strings(&["<", ">", ";", ",", "\"", "\\", "=", " ", "a", "\u{e9}"], 5) {
+            match catch_unwind(AssertUnwindSafe(|| scan_links(&s))) {
+                Err(_) => found("link-parser-panic", format!("{:?}", s)),
+                Ok(Err(e)) => found("link-parser", format!("{:?}: {}", s, e)),
+                Ok(Ok(())) => {}
             }
         }
     }
